@@ -63,7 +63,11 @@ def _make_isotherm(spec):
     material = copy.deepcopy(spec["material"])
     common = dict(material=material, adsorbate=spec["adsorbate"], temperature=spec["temperature"])
     common.update(copy.deepcopy(spec.get("units", {})))
-    common.update(copy.deepcopy(spec.get("meta", {})))
+    meta = copy.deepcopy(spec.get("meta", {}))
+    for k in [k for k in meta if k.endswith("__np")]:
+        import numpy
+        meta[k[:-4]] = [numpy.float64(x) for x in meta.pop(k)]      # users do put numpy scalars into metadata
+    common.update(meta)
     if kind == "base":
         return BaseIsotherm(**common)
     if kind == "point":
